@@ -373,4 +373,75 @@ def perturbations(sp, rnd, gt):
                             x["scale"] = 1
                             x["sym2"] = x["sym"]
                         emit("expr.kind:const-to-addr", to_addr)
+
+    # ---- the containment tree alone: the same nodes under other parents ---
+    # (move: the two parents' child counts change; exchange: every count,
+    # every UUID and every node's own content stay what they were)
+    def parents(s2, pkind):
+        if pkind == "module":
+            return list(s2["modules"])
+        secs = [s for m in s2["modules"] for s in m["sections"]]
+        if pkind == "section":
+            return secs
+        return [bi for s in secs for bi in s["intervals"]]
+
+    def movable(kind, node):
+        if kind == "symbol":
+            return node["payload"] is None or "value" in node["payload"]
+        k2 = {"proxy": None, "section": "section", "interval": "interval",
+              "block": None}[kind]
+        sub = subtree_uuids(k2, node) if k2 else {node["uuid"]}
+        # expressions point at symbols of their own module: a subtree that
+        # holds any stays where it is
+        ivs = [node] if kind == "interval" else node.get("intervals", [])
+        if any(bi["exprs"] for bi in ivs):
+            return False
+        return not (sub & refs)
+
+    def exprsyms(s2):
+        return {e.get(k) for m in s2["modules"] for s in m["sections"]
+                for bi in s["intervals"] for e in bi["exprs"].values()
+                for k in ("sym", "sym2")}
+
+    for pkind, field, ckind in (("module", "proxies", "proxy"),
+                                ("module", "sections", "section"),
+                                ("module", "symbols", "symbol"),
+                                ("section", "intervals", "interval"),
+                                ("interval", "blocks", "block")):
+        def pick(s2, n, field=field, ckind=ckind, pkind=pkind):
+            """n distinct parents of one kind, each with a movable child
+            (for the second parent of a move none is needed)."""
+            used = exprsyms(s2) if ckind == "symbol" else set()
+            ps = [(p, [c for c in p[field] if movable(ckind, c)
+                       and c["uuid"] not in used])
+                  for p in parents(s2, pkind)]
+            have = [x for x in ps if x[1]]
+            if n == 2:
+                return rnd.sample(have, 2) if len(have) >= 2 else None
+            if not have or len(ps) < 2:
+                return None
+            a = rnd.choice(have)
+            b = rnd.choice([x for x in ps if x[0] is not a[0]])
+            return a, b
+
+        def move(s2, pick=pick, field=field):
+            r = pick(s2, 1)
+            if r is None:
+                return False
+            (pa, ca), (pb, _) = r
+            c = rnd.choice(ca)
+            pa[field].remove(c)
+            pb[field].append(c)
+
+        def exchange(s2, pick=pick, field=field):
+            r = pick(s2, 2)
+            if r is None:
+                return False
+            (pa, ca), (pb, cb) = r
+            x, y = rnd.choice(ca), rnd.choice(cb)
+            pa[field][pa[field].index(x)] = y
+            pb[field][pb[field].index(y)] = x
+        if len(parents(sp, pkind)) >= 2:
+            emit("tree:move-%s-to-other-%s" % (ckind, pkind), move)
+            emit("tree:exchange-%ss-between-%ss" % (ckind, pkind), exchange)
     return out
